@@ -1,4 +1,497 @@
-(** placeholder, replaced by the CometBFT light-client model *)
-From IBC Require Import Lib.Bytes.
-Inductive LCase := LNone.
-Definition light_check (c : LCase) : bool := true.
+(** Header and misbehaviour verification of the 07-tendermint client, with the CometBFT light-client
+    verification it calls re-modelled from the dependency source (cometbft v0.40.0).
+
+    ibc-go:    modules/light-clients/07-tendermint/update.go            verifyHeader, checkTrustedHeader
+               modules/light-clients/07-tendermint/misbehaviour_handle.go verifyMisbehaviour, checkMisbehaviourHeader
+               modules/light-clients/07-tendermint/misbehaviour.go      Misbehaviour.ValidateBasic, validCommit
+               modules/light-clients/07-tendermint/header.go            Header.ValidateBasic, GetHeight
+    cometbft:  light/verifier.go     Verify, VerifyAdjacent, VerifyNonAdjacent, verifyNewHeaderAndVals, HeaderExpired
+               types/validation.go   VerifyCommitLight(+WithCache), VerifyCommitLightTrusting(+WithCache),
+                                     verifyBasicValsAndCommit, verifyCommitSingle (the batch path has the same
+                                     verdict: signatures are taken in order until the tally exceeds the need, and every
+                                     signature taken must verify; checked by the correspondence, which runs the
+                                     batch path because the test validators use ed25519)
+               types/validator_set.go ValidatorSetFromProto, ValidateBasic, TotalVotingPowerSafe, safeAddClip, safeMul
+               types/block.go / light.go  Header.ValidateBasic, Commit.ValidateBasic, CommitSig.ValidateBasic,
+                                     BlockID.ValidateBasic, SignedHeader.ValidateBasic, Commit.VoteSignBytes
+    Unmodelled externals are Section variables: signature verification, the canonical vote encoding, the
+    validator-set and header Merkle hashes, the address derivation of a public key.
+    Times are Z nanoseconds; int64 arithmetic the code performs on heights is written with explicit wrap. *)
+From IBC Require Import Lib.Bytes Lib.Dec Core.Height TmVerify.Util TmVerify.World.
+Local Open Scope Z_scope.
+
+Record Validator := mkVal { v_addr : bytes; v_pk : bytes; v_power : Z }.
+Record ValSet := mkVS { vs_vals : list Validator; vs_prop : option Validator }.
+Record BlockID := mkBID { bi_hash : bytes; bi_total : N; bi_phash : bytes }.
+Record CommitSig := mkSig { s_flag : N; s_addr : bytes; s_ts : Z; s_sig : bytes }.
+Record Commit := mkCommit { cm_height : Z; cm_round : Z; cm_bid : BlockID; cm_sigs : list CommitSig }.
+Record Header := mkHdr {
+  hd_block : N; hd_app : N; hd_chain : bytes; hd_height : Z; hd_time : Z; hd_last : BlockID;
+  hd_last_commit : bytes; hd_data : bytes; hd_vals : bytes; hd_next_vals : bytes; hd_cons : bytes;
+  hd_apphash : bytes; hd_results : bytes; hd_evidence : bytes; hd_proposer : bytes }.
+(** ibctm.Header: SignedHeader{Header, Commit}, ValidatorSet, TrustedHeight, TrustedValidators *)
+Record TmHeader := mkTH {
+  th_hdr : Header; th_commit : Commit; th_vals : option ValSet;
+  th_trusted : Height; th_tvals : option ValSet }.
+
+(** the canonical precommit vote a validator signs (types.CanonicalizeVote) *)
+Record VoteMsg := mkVM { vm_chain : bytes; vm_height : Z; vm_round : Z; vm_bid : BlockID; vm_ts : Z }.
+
+Definition flag_absent : N := 1%N.
+Definition flag_commit : N := 2%N.
+Definition flag_nil : N := 3%N.
+Definition block_protocol : N := 11%N.
+Definition max_total_power : Z := max_int64 / 8.
+Definition zero_time : Z := -62135596800000000000.      (* time.Time{} *)
+Definition max_signature_size : N := 3309%N.            (* types.MaxSignatureSize = max(ed25519 64, bls12381 96, mldsa65 3309) *)
+
+Definition blockid_eqb (a b : BlockID) : bool :=
+  bytes_eqb (bi_hash a) (bi_hash b) && (bi_total a =? bi_total b)%N && bytes_eqb (bi_phash a) (bi_phash b).
+Definition len (s : bytes) : N := N.of_nat (length s).
+Definition hash_len_ok (s : bytes) : bool := (len s =? 0)%N || (len s =? 32)%N.      (* types.ValidateHash *)
+Definition blockid_ok (b : BlockID) : bool := hash_len_ok (bi_hash b) && hash_len_ok (bi_phash b).
+Definition blockid_is_zero (b : BlockID) : bool :=
+  (len (bi_hash b) =? 0)%N && (bi_total b =? 0)%N && (len (bi_phash b) =? 0)%N.
+
+(** validator_set.go:safeAddClip / safeMul *)
+Definition safe_add_clip (a b : Z) : Z :=
+  let s := a + b in if max_int64 <? s then max_int64 else if s <? min_int64 then min_int64 else s.
+Definition safe_mul (a b : Z) : option Z :=        (* None = overflow reported *)
+  if (a =? 0) || (b =? 0) then Some 0
+  else
+    let absb := if b <? 0 then wrap64 (- b) else b in
+    let absa := if a <? 0 then wrap64 (- a) else a in
+    if absa >? Z.quot max_int64 absb then None else Some (wrap64 (a * b)).
+
+(** updateTotalVotingPower: error as soon as the clipped running sum exceeds MaxTotalVotingPower *)
+Fixpoint total_power_from (acc : Z) (l : list Validator) : option Z :=
+  match l with
+  | [] => Some acc
+  | v :: l' => let s := safe_add_clip acc (v_power v) in
+               if max_total_power <? s then None else total_power_from s l'
+  end.
+Definition total_power (l : list Validator) : option Z := total_power_from 0 l.
+
+(** CommitSig.ValidateBasic *)
+Definition sig_basic_ok (s : CommitSig) : bool :=
+  if (s_flag s =? flag_absent)%N then
+    (len (s_addr s) =? 0)%N && (s_ts s =? zero_time) && (len (s_sig s) =? 0)%N
+  else if (s_flag s =? flag_commit)%N || (s_flag s =? flag_nil)%N then
+    (len (s_addr s) =? 20)%N && negb (len (s_sig s) =? 0)%N && (len (s_sig s) <=? max_signature_size)%N
+  else false.
+
+(** Commit.ValidateBasic, preceded by BlockID validation of CommitFromProto *)
+Definition commit_basic_ok (c : Commit) : bool :=
+  blockid_ok (cm_bid c) &&
+  negb (cm_height c <? 0) && negb (cm_round c <? 0) &&
+  (if 1 <=? cm_height c
+   then negb (blockid_is_zero (cm_bid c)) && negb (match cm_sigs c with [] => true | _ => false end) &&
+        forallb sig_basic_ok (cm_sigs c)
+   else true).
+
+(** types.Header.ValidateBasic *)
+Definition header_basic_ok (h : Header) : bool :=
+  (hd_block h =? block_protocol)%N && (len (hd_chain h) <=? 50)%N && (0 <? hd_height h) &&
+  blockid_ok (hd_last h) && hash_len_ok (hd_last_commit h) && hash_len_ok (hd_data h) &&
+  hash_len_ok (hd_evidence h) && (len (hd_proposer h) =? 20)%N && hash_len_ok (hd_vals h) &&
+  hash_len_ok (hd_next_vals h) && hash_len_ok (hd_cons h) && hash_len_ok (hd_results h).
+
+Section Light.
+  Variable sig_ok : bytes -> bytes -> bytes -> bool.        (* PubKey.VerifySignature(msg, sig) *)
+  Variable vote_bytes : VoteMsg -> bytes.                   (* protobuf-delimited CanonicalVote *)
+  Variable vals_hash : list Validator -> bytes.             (* ValidatorSet.Hash *)
+  Variable header_hash : Header -> bytes.                   (* Header.Hash *)
+  Variable pk_addr : bytes -> bytes.                        (* PubKey.Address *)
+
+  (** Validator.ValidateBasic *)
+  Definition validator_ok (v : Validator) : bool :=
+    negb (v_power v <? 0) && bytes_eqb (v_addr v) (pk_addr (v_pk v)).
+
+  (** ValidatorSetFromProto: conversion, TotalVotingPowerSafe, ValidateBasic.  Some l = the validators. *)
+  Definition valset_from_proto (o : option ValSet) : option (list Validator) :=
+    match o with
+    | None => None
+    | Some s =>
+        match vs_prop s with
+        | None => None
+        | Some p =>
+            match total_power (vs_vals s) with
+            | None => None
+            | Some _ =>
+                if match vs_vals s with [] => true | _ => false end then None
+                else if negb (forallb validator_ok (vs_vals s)) then None
+                else if negb (validator_ok p) then None
+                else if negb (existsb (fun v => bytes_eqb (v_addr v) (v_addr p)) (vs_vals s)) then None
+                else Some (vs_vals s)
+            end
+        end
+    end.
+
+  (** the message whose signature is checked for commit signature [s] (Commit.VoteSignBytes): the vote is for
+      the commit's block id because only BlockIDFlagCommit signatures are ever verified *)
+  Definition sign_msg (chain : bytes) (c : Commit) (s : CommitSig) : VoteMsg :=
+    mkVM chain (cm_height c) (cm_round c) (cm_bid c) (s_ts s).
+
+  (** SignatureCache: signature bytes -> (validator address, sign bytes) *)
+  Definition Cache := list (bytes * bytes * bytes).
+  Definition cache_hit (cache : Cache) (sg addr msg : bytes) : bool :=
+    match find (fun e => bytes_eqb (fst (fst e)) sg) cache with
+    | Some e => bytes_eqb (snd (fst e)) addr && bytes_eqb (snd e) msg
+    | None => false
+    end.
+  Definition cache_add (cache : Cache) (sg addr msg : bytes) : Cache :=
+    (sg, addr, msg) :: filter (fun e => negb (bytes_eqb (fst (fst e)) sg)) cache.
+
+  Definition sig_valid (cache : Cache) (chain : bytes) (c : Commit) (v : Validator) (s : CommitSig) : bool :=
+    let msg := vote_bytes (sign_msg chain c s) in
+    cache_hit cache (s_sig s) (pk_addr (v_pk v)) msg || sig_ok (v_pk v) msg (s_sig s).
+
+  (** verifyCommitSingle with lookUpByIndex = true, ignore = not BlockIDFlagCommit, count = all,
+      countAllSignatures = false *)
+  Fixpoint light_loop (chain : bytes) (c : Commit) (needed : Z) (cache : Cache) (tally : Z)
+           (vs : list Validator) (ss : list CommitSig) : bool * Cache :=
+    match vs, ss with
+    | v :: vs', s :: ss' =>
+        if negb (s_flag s =? flag_commit)%N then light_loop chain c needed cache tally vs' ss'
+        else if negb (bytes_eqb (v_addr v) (s_addr s)) then (false, cache)
+        else if negb (sig_valid cache chain c v s) then (false, cache)
+        else
+          let cache' := cache_add cache (s_sig s) (pk_addr (v_pk v)) (vote_bytes (sign_msg chain c s)) in
+          let tally' := tally + v_power v in
+          if needed <? tally' then (true, cache')
+          else light_loop chain c needed cache' tally' vs' ss'
+    | _, _ => (negb (tally <=? needed), cache)
+    end.
+
+  (** VerifyCommitLight(+WithCache): verifyBasicValsAndCommit, then > 2/3 *)
+  Definition verify_commit_light (chain : bytes) (vals : list Validator) (bid : BlockID) (height : Z)
+             (c : Commit) (cache : Cache) : bool * Cache :=
+    if negb (N.of_nat (length vals) =? N.of_nat (length (cm_sigs c)))%N then (false, cache)
+    else if negb (height =? cm_height c) then (false, cache)
+    else if negb (blockid_eqb bid (cm_bid c)) then (false, cache)
+    else match total_power vals with
+         | None => (false, cache)                 (* TotalVotingPower() would panic; excluded by ValidatorSetFromProto *)
+         | Some total => light_loop chain c (Z.quot (total * 2) 3) cache 0 vals (cm_sigs c)
+         end.
+
+  (** ValidatorSet.GetByAddress: first validator with that address *)
+  Fixpoint find_val (addr : bytes) (i : N) (vs : list Validator) : option (N * Validator) :=
+    match vs with
+    | [] => None
+    | v :: vs' => if bytes_eqb (v_addr v) addr then Some (i, v) else find_val addr (N.succ i) vs'
+    end.
+
+  (** verifyCommitSingle with lookUpByIndex = false *)
+  Fixpoint trusting_loop (chain : bytes) (c : Commit) (needed : Z) (vals : list Validator) (cache : Cache)
+           (seen : list N) (tally : Z) (ss : list CommitSig) : bool * Cache :=
+    match ss with
+    | s :: ss' =>
+        if negb (s_flag s =? flag_commit)%N then trusting_loop chain c needed vals cache seen tally ss'
+        else match find_val (s_addr s) 0%N vals with
+             | None => trusting_loop chain c needed vals cache seen tally ss'
+             | Some (i, v) =>
+                 if existsb (N.eqb i) seen then (false, cache)            (* double vote *)
+                 else if negb (sig_valid cache chain c v s) then (false, cache)
+                 else
+                   let cache' := cache_add cache (s_sig s) (pk_addr (v_pk v)) (vote_bytes (sign_msg chain c s)) in
+                   let tally' := tally + v_power v in
+                   if needed <? tally' then (true, cache')
+                   else trusting_loop chain c needed vals cache' (i :: seen) tally' ss'
+             end
+    | [] => (negb (tally <=? needed), cache)
+    end.
+
+  (** int64(trustLevel.Numerator), int64(trustLevel.Denominator); the quotient is Go's truncating division *)
+  Definition trust_needed (total : Z) (num den : N) : option Z :=
+    if (den =? 0)%N then None
+    else match safe_mul total (int64_of_uint64 num) with
+         | None => None
+         | Some p => Some (Z.quot p (int64_of_uint64 den))
+         end.
+
+  (** VerifyCommitLightTrusting(+WithCache) *)
+  Definition verify_commit_light_trusting (chain : bytes) (vals : list Validator) (c : Commit) (num den : N)
+             (cache : Cache) : bool * Cache :=
+    match total_power vals with
+    | None => (false, cache)
+    | Some total =>
+        match trust_needed total num den with
+        | None => (false, cache)
+        | Some needed => trusting_loop chain c needed vals cache [] 0 (cm_sigs c)
+        end
+    end.
+
+  (** SignedHeader.ValidateBasic(chainID) *)
+  Definition signed_header_basic_ok (chain : bytes) (h : Header) (c : Commit) : bool :=
+    header_basic_ok h && commit_basic_ok c && bytes_eqb (hd_chain h) chain &&
+    (cm_height c =? hd_height h) && bytes_eqb (header_hash h) (bi_hash (cm_bid c)).
+
+  (** light.verifyNewHeaderAndVals *)
+  Definition verify_new_header_and_vals (h : Header) (c : Commit) (vals : list Validator)
+             (tchain : bytes) (theight ttime now drift : Z) : bool :=
+    signed_header_basic_ok tchain h c &&
+    negb (hd_height h <=? theight) &&
+    (ttime <? hd_time h) &&                         (* untrusted.Time.After(trusted.Time) *)
+    (hd_time h <? now + drift) &&                   (* untrusted.Time.Before(now.Add(maxClockDrift)) *)
+    bytes_eqb (hd_vals h) (vals_hash vals).
+
+  (** light.HeaderExpired *)
+  Definition header_expired (ttime trusting now : Z) : bool := negb (now <? ttime + trusting).
+
+  (** light.Verify = VerifyAdjacent / VerifyNonAdjacent; trusted header = (chain id, height, time, next vals hash) *)
+  Definition light_verify (tchain : bytes) (theight ttime : Z) (tnvh : bytes) (tvals : list Validator)
+             (h : Header) (c : Commit) (vals : list Validator) (trusting now drift : Z) (num den : N) : bool :=
+    if negb (hd_height h =? wrap64 (theight + 1)) then
+      (* VerifyNonAdjacent *)
+      if header_expired ttime trusting now then false
+      else if negb (verify_new_header_and_vals h c vals tchain theight ttime now drift) then false
+      else
+        let '(ok1, cache) := verify_commit_light_trusting tchain tvals c num den [] in
+        if negb ok1 then false
+        else fst (verify_commit_light tchain vals (cm_bid c) (hd_height h) c cache)
+    else
+      (* VerifyAdjacent *)
+      if header_expired ttime trusting now then false
+      else if negb (verify_new_header_and_vals h c vals tchain theight ttime now drift) then false
+      else if negb (bytes_eqb (hd_vals h) tnvh) then false
+      else fst (verify_commit_light tchain vals (cm_bid c) (hd_height h) c []).
+
+  (** header.go:GetHeight — revision from the header's chain id, uint64(Header.Height) *)
+  Definition uint64_of_int64 (z : Z) : N := Z.to_N (z mod two64Z).
+  Definition header_height (h : Header) : option Height :=       (* None = ParseChainID panic *)
+    match parse_chain_id (hd_chain h) with
+    | PRev r => Some (mkH r (uint64_of_int64 (hd_height h)))
+    | PRevPanic => None
+    end.
+
+  (** SignedHeaderFromProto: HeaderFromProto (ValidateBasic) and CommitFromProto (ValidateBasic) *)
+  Definition signed_header_from_proto_ok (h : Header) (c : Commit) : bool :=
+    header_basic_ok h && commit_basic_ok c.
+
+  (** update.go:checkTrustedHeader *)
+  Definition check_trusted_header (tv : option ValSet) (cs : ConsState) : bool :=
+    match valset_from_proto tv with
+    | None => false
+    | Some tvals => bytes_eqb (cs_nvh cs) (vals_hash tvals)
+    end.
+
+  (** update.go:verifyHeader *)
+  Definition verify_header (cl : Client) (now : Z) (th : TmHeader) : Res :=
+    match hlookup (th_trusted th) (c_cons cl) with
+    | None => Err
+    | Some cs =>
+        if negb (check_trusted_header (th_tvals th) cs) then Err
+        else match header_height (th_hdr th) with
+             | None => Panic
+             | Some hh =>
+                 if negb (rev hh =? rev (th_trusted th))%N then Err
+                 else match valset_from_proto (th_tvals th) with
+                      | None => Err
+                      | Some tvals =>
+                          if negb (signed_header_from_proto_ok (th_hdr th) (th_commit th)) then Err
+                          else match valset_from_proto (th_vals th) with
+                               | None => Err
+                               | Some vals =>
+                                   if h_lte hh (th_trusted th) then Err
+                                   else if light_verify (c_chain cl) (int64_of_uint64 (ht (th_trusted th)))
+                                             (cs_ts cs) (cs_nvh cs) tvals (th_hdr th) (th_commit th) vals
+                                             (c_trusting cl) now (c_drift cl) (c_tl_num cl) (c_tl_den cl)
+                                        then Ok else Err
+                               end
+                      end
+             end
+    end.
+
+  (** header.go:Header.ValidateBasic *)
+  Definition tm_header_basic (th : TmHeader) : Res :=
+    if negb (signed_header_from_proto_ok (th_hdr th) (th_commit th)) then Err
+    else if negb (signed_header_basic_ok (hd_chain (th_hdr th)) (th_hdr th) (th_commit th)) then Err
+    else match header_height (th_hdr th) with
+         | None => Panic
+         | Some hh =>
+             if h_gte (th_trusted th) hh then Err
+             else match th_vals th with
+                  | None => Err
+                  | Some _ =>
+                      match valset_from_proto (th_vals th) with
+                      | None => Err
+                      | Some vals => if bytes_eqb (hd_vals (th_hdr th)) (vals_hash vals) then Ok else Err
+                      end
+                  end
+         end.
+
+  (** misbehaviour.go:validCommit *)
+  Definition valid_commit (th : TmHeader) : bool :=
+    commit_basic_ok (th_commit th) &&
+    match valset_from_proto (th_vals th) with
+    | None => false
+    | Some vals => fst (verify_commit_light (hd_chain (th_hdr th)) vals (cm_bid (th_commit th))
+                                           (cm_height (th_commit th)) (th_commit th) [])
+    end.
+
+  (** misbehaviour.go:Misbehaviour.ValidateBasic (client identifier assumed well-formed) *)
+  Definition misb_basic (h1 h2 : TmHeader) : Res :=
+    if (ht (th_trusted h1) =? 0)%N then Err
+    else if (ht (th_trusted h2) =? 0)%N then Err
+    else match th_tvals h1, th_tvals h2 with
+         | Some _, Some _ =>
+             if negb (bytes_eqb (hd_chain (th_hdr h1)) (hd_chain (th_hdr h2))) then Err
+             else match tm_header_basic h1 with
+                  | Ok =>
+                      match tm_header_basic h2 with
+                      | Ok =>
+                          match header_height (th_hdr h1), header_height (th_hdr h2) with
+                          | Some a, Some b =>
+                              if h_lt a b then Err
+                              else if negb (blockid_ok (cm_bid (th_commit h1))) then Err
+                              else if negb (blockid_ok (cm_bid (th_commit h2))) then Err
+                              else if negb (valid_commit h1) then Err
+                              else if valid_commit h2 then Ok else Err
+                          | _, _ => Panic
+                          end
+                      | r => r
+                      end
+                  | r => r
+                  end
+         | _, _ => Err
+         end.
+
+  (** misbehaviour_handle.go:checkMisbehaviourHeader *)
+  Definition check_misbehaviour_header (cl : Client) (cs : ConsState) (th : TmHeader) (now : Z) : Res :=
+    match valset_from_proto (th_tvals th) with
+    | None => Err
+    | Some tvals =>
+        if negb (commit_basic_ok (th_commit th)) then Err
+        else if negb (check_trusted_header (th_tvals th) cs) then Err
+        else if c_trusting cl <=? now - cs_ts cs then Err
+        else
+          let chain :=
+            if is_revision_format (c_chain cl) then
+              match header_height (th_hdr th) with
+              | Some hh => Some (set_revision_number (c_chain cl) (rev hh))
+              | None => None
+              end
+            else Some (c_chain cl) in
+          match chain with
+          | None => Panic
+          | Some ch =>
+              if fst (verify_commit_light_trusting ch tvals (th_commit th) (c_tl_num cl) (c_tl_den cl) [])
+              then Ok else Err
+          end
+    end.
+
+  (** misbehaviour_handle.go:verifyMisbehaviour *)
+  Definition verify_misbehaviour (cl : Client) (now : Z) (h1 h2 : TmHeader) : Res :=
+    match hlookup (th_trusted h1) (c_cons cl) with
+    | None => Err
+    | Some cs1 =>
+        match hlookup (th_trusted h2) (c_cons cl) with
+        | None => Err
+        | Some cs2 =>
+            match check_misbehaviour_header cl cs1 h1 now with
+            | Ok => check_misbehaviour_header cl cs2 h2 now
+            | r => r
+            end
+        end
+    end.
+
+  (** the World-level message of a misbehaviour submission, and whether it freezes the client:
+      02-client UpdateClient = VerifyClientMessage, then CheckForMisbehaviour, then UpdateStateOnMisbehaviour *)
+  Definition misb_msg (cl : Client) (now : Z) (h1 h2 : TmHeader) : option Msg :=
+    match header_height (th_hdr h1), header_height (th_hdr h2) with
+    | Some a, Some b =>
+        Some (MMisb a b (bi_hash (cm_bid (th_commit h1))) (bi_hash (cm_bid (th_commit h2)))
+                    (hd_time (th_hdr h1)) (hd_time (th_hdr h2))
+                    (res_eqb (verify_misbehaviour cl now h1 h2) Ok))
+    | _, _ => None
+    end.
+  Definition misbehaviour_freezes (cl : Client) (now : Z) (h1 h2 : TmHeader) : bool :=
+    match misb_msg cl now h1 h2 with
+    | Some m => msg_verified m && check_for_misbehaviour cl m
+    | None => false
+    end.
+
+  (** ---- what "enough voting power" means, as executable counts -------------------------------------- *)
+  (** power of the validators of the header's own set whose commit signature (same index, same address,
+      BlockIDFlagCommit) is valid for the sign bytes of this chain id and commit *)
+  Fixpoint signed_power (cache : Cache) (chain : bytes) (c : Commit) (vs : list Validator) (ss : list CommitSig) : Z :=
+    match vs, ss with
+    | v :: vs', s :: ss' =>
+        (if (s_flag s =? flag_commit)%N && bytes_eqb (v_addr v) (s_addr s) &&
+            (existsb (fun e => bytes_eqb (snd (fst e)) (pk_addr (v_pk v)) && bytes_eqb (fst (fst e)) (s_sig s) &&
+                               bytes_eqb (snd e) (vote_bytes (sign_msg chain c s))) cache
+             || sig_ok (v_pk v) (vote_bytes (sign_msg chain c s)) (s_sig s))
+         then v_power v else 0) + signed_power cache chain c vs' ss'
+    | _, _ => 0
+    end.
+
+  (** power of the distinct validators of the trusted set (found by address) with a valid BlockIDFlagCommit
+      signature in the commit; each validator is counted at most once *)
+  Fixpoint trusted_signed_power (chain : bytes) (c : Commit) (vals : list Validator) (seen : list N)
+           (ss : list CommitSig) : Z :=
+    match ss with
+    | s :: ss' =>
+        if (s_flag s =? flag_commit)%N then
+          match find_val (s_addr s) 0%N vals with
+          | Some (i, v) =>
+              if existsb (N.eqb i) seen then trusted_signed_power chain c vals seen ss'
+              else (if sig_ok (v_pk v) (vote_bytes (sign_msg chain c s)) (s_sig s) then v_power v else 0)
+                   + trusted_signed_power chain c vals (i :: seen) ss'
+          | None => trusted_signed_power chain c vals seen ss'
+          end
+        else trusted_signed_power chain c vals seen ss'
+    | [] => 0
+    end.
+End Light.
+
+(** ---- correspondence cases (evaluated by Corr/TmVerify.v) ------------------------------------------- *)
+Definition validator_eqb (a b : Validator) : bool :=
+  bytes_eqb (v_addr a) (v_addr b) && bytes_eqb (v_pk a) (v_pk b) && (v_power a =? v_power b).
+Fixpoint vals_eqb (a b : list Validator) : bool :=
+  match a, b with
+  | [], [] => true
+  | x :: a', y :: b' => validator_eqb x y && vals_eqb a' b'
+  | _, _ => false
+  end.
+Definition header_eqb (a b : Header) : bool :=
+  (hd_block a =? hd_block b)%N && (hd_app a =? hd_app b)%N && bytes_eqb (hd_chain a) (hd_chain b) &&
+  (hd_height a =? hd_height b) && (hd_time a =? hd_time b) && blockid_eqb (hd_last a) (hd_last b) &&
+  bytes_eqb (hd_last_commit a) (hd_last_commit b) && bytes_eqb (hd_data a) (hd_data b) &&
+  bytes_eqb (hd_vals a) (hd_vals b) && bytes_eqb (hd_next_vals a) (hd_next_vals b) &&
+  bytes_eqb (hd_cons a) (hd_cons b) && bytes_eqb (hd_apphash a) (hd_apphash b) &&
+  bytes_eqb (hd_results a) (hd_results b) && bytes_eqb (hd_evidence a) (hd_evidence b) &&
+  bytes_eqb (hd_proposer a) (hd_proposer b).
+
+(** tables recorded from the real functions *)
+Record LTables := mkLT {
+  lt_sigs : list (bytes * bytes * bytes);          (* (public key, chain id, signature) that verify *)
+  lt_vhash : list (list Validator * bytes);        (* ValidatorSet.Hash *)
+  lt_hhash : list (Header * bytes);                (* Header.Hash *)
+  lt_addr : list (bytes * bytes)                   (* PubKey.Address *)
+}.
+Definition tbl_sig_ok (T : LTables) (pk msg sg : bytes) : bool :=
+  existsb (fun '(p, m, s) => bytes_eqb p pk && bytes_eqb m msg && bytes_eqb s sg) (lt_sigs T).
+(** the recorded validity is per (key, chain id, signature): height, round, block id and timestamp of the vote
+    are those of the commit the signature sits in, so the chain id is the only free part of the sign bytes *)
+Definition tbl_vote_bytes (m : VoteMsg) : bytes := vm_chain m.
+Definition tbl_vals_hash (T : LTables) (l : list Validator) : bytes :=
+  match find (fun x => vals_eqb (fst x) l) (lt_vhash T) with Some x => snd x | None => B "?vals" end.
+Definition tbl_header_hash (T : LTables) (h : Header) : bytes :=
+  match find (fun x => header_eqb (fst x) h) (lt_hhash T) with Some x => snd x | None => B "?hdr" end.
+Definition tbl_pk_addr (T : LTables) (pk : bytes) : bytes :=
+  match find (fun x => bytes_eqb (fst x) pk) (lt_addr T) with Some x => snd x | None => B "?addr" end.
+
+Inductive LCase :=
+| LHeader (T : LTables) (cl : Client) (now : Z) (th : TmHeader) (basic verdict : Res)
+| LMisb (T : LTables) (cl : Client) (now : Z) (h1 h2 : TmHeader) (basic verdict : Res) (freezes : bool).
+
+Definition light_check (c : LCase) : bool :=
+  match c with
+  | LHeader T cl now th basic verdict =>
+      res_eqb (tm_header_basic (tbl_vals_hash T) (tbl_header_hash T) (tbl_pk_addr T) th) basic &&
+      res_eqb (verify_header (tbl_sig_ok T) tbl_vote_bytes (tbl_vals_hash T) (tbl_header_hash T) (tbl_pk_addr T) cl now th) verdict
+  | LMisb T cl now h1 h2 basic verdict freezes =>
+      res_eqb (misb_basic (tbl_sig_ok T) tbl_vote_bytes (tbl_vals_hash T) (tbl_header_hash T) (tbl_pk_addr T) h1 h2) basic &&
+      res_eqb (verify_misbehaviour (tbl_sig_ok T) tbl_vote_bytes (tbl_vals_hash T) (tbl_pk_addr T) cl now h1 h2) verdict &&
+      Bool.eqb (misbehaviour_freezes (tbl_sig_ok T) tbl_vote_bytes (tbl_vals_hash T) (tbl_pk_addr T) cl now h1 h2) freezes
+  end.
